@@ -9,6 +9,7 @@ RULES = {
     "CW-INC-FAIL-ON-DESTRUCTED": rules_cw.rule_inc_fail_on_destructed,
     "CW-UPGRADE-TRACE": rules_cw.rule_upgrade_trace,
     "CW-WINDOW-FRESH": rules_cw.rule_window_fresh,
+    "CW-COUNT-OVERFLOW": rules_cw.rule_count_overflow,
     "CW-CASCADE-FOREIGN-GUARD": rules_cw.rule_cascade_foreign_guard,
     "CW-SPLIT-INC-PROTECTED": rules_cw.rule_split_inc,
     "CW-ZERO-DEFERS": rules_cw.rule_zero_defers,
